@@ -275,8 +275,8 @@ def run_tests(ctx):
         ctx.fail('means_sem', dict(sig, what='sem_value'), 'SEM^2 != diagonal of the covariance x n/(n-1)', wit())
 
     def run_all(r):
-        if test == 'ranksum' and r.evaluations.ndim != 3:
-            return None
+        if test == 'ranksum' and (r.evaluations.ndim != 3 or r.evaluations.shape[2] < 2):
+            return None   # documented: rank-sum tests need bootstrap x models x (>= 2) subjects
         return r.test_pairwise(test), r.test_zero(test), r.test_noise(test)
     try:
         out = run_all(res)
